@@ -103,8 +103,59 @@ type loopSig struct {
 	flagPos map[string]token.Pos
 }
 
+// pathCond renders the conjunction of branch conditions under which n executes inside the loop body,
+// with the loop's own variables normalised (VAL, SPEC, IDX) so that the two loops can be compared.
+func pathCond(c *Ctx, info *types.Info, l *argLoop, n ast.Node) string {
+	subst := map[types.Object]string{}
+	if l.valObj != nil {
+		subst[l.valObj] = "VAL"
+	}
+	inspectNoLit(l.fn.Body, func(m ast.Node) bool {
+		if id, ok := m.(*ast.Ident); ok {
+			if o := info.ObjectOf(id); o != nil {
+				if v, ok := o.(*types.Var); ok && !v.IsField() {
+					switch {
+					case namedType(v.Type()) == "cty/function.Parameter":
+						subst[o] = "SPEC"
+					case types.Identical(v.Type(), types.Typ[types.Int]):
+						subst[o] = "IDX"
+					}
+				}
+			}
+		}
+		return true
+	})
+	cc := &canonCtx{info: info, subst: subst, locals: map[types.Object]string{}}
+	var conds []string
+	var child ast.Node = n
+	for p := c.Parent(n); p != nil && p != ast.Node(l.loop.Body); child, p = p, c.Parent(p) {
+		ifs, ok := p.(*ast.IfStmt)
+		if !ok {
+			continue
+		}
+		switch {
+		case ast.Node(ifs.Body) == child:
+			conds = append(conds, cc.expr(ifs.Cond))
+		case ifs.Else == child:
+			conds = append(conds, "!("+cc.expr(ifs.Cond)+")")
+		}
+	}
+	sort.Strings(conds)
+	return strings.Join(conds, " && ")
+}
+
 func loopSignature(info *types.Info, l *argLoop) *loopSig {
+	return loopSignatureCtx(nil, info, l)
+}
+
+func loopSignatureCtx(c *Ctx, info *types.Info, l *argLoop) *loopSig {
 	s := &loopSig{flags: map[string]bool{}, calls: map[string]int{}, exits: map[string]int{}, flagPos: map[string]token.Pos{}}
+	under := func(n ast.Node) string {
+		if c == nil {
+			return ""
+		}
+		return " under [" + pathCond(c, info, l, n) + "]"
+	}
 	inspectNoLit(l.loop.Body, func(n ast.Node) bool {
 		switch x := n.(type) {
 		case *ast.SelectorExpr:
@@ -121,19 +172,19 @@ func loopSignature(info *types.Info, l *argLoop) *loopSig {
 				}
 			}
 		case *ast.BranchStmt:
-			s.exits[x.Tok.String()]++
+			s.exits[x.Tok.String()+under(x)]++
 		case *ast.ReturnStmt:
 			var parts []string
 			for _, r := range x.Results {
 				parts = append(parts, returnShape(info, r))
 			}
-			s.exits["return("+strings.Join(parts, ",")+")"]++
+			s.exits["return("+strings.Join(parts, ",")+")"+under(x)]++
 		case *ast.AssignStmt:
 			// assignments to flags such as returnUnknown = true
 			for i, lh := range x.Lhs {
 				if id, ok := lh.(*ast.Ident); ok && i < len(x.Rhs) {
 					if b, ok := ast.Unparen(x.Rhs[i]).(*ast.Ident); ok && (b.Name == "true" || b.Name == "false") {
-						s.exits["set "+id.Name+"="+b.Name]++
+						s.exits["set "+id.Name+"="+b.Name+under(x)]++
 					}
 				}
 			}
@@ -198,7 +249,7 @@ func runLoopAgreement(rr *RuleRun) {
 			rr.Violation(key, fd.Pos(), "could not find both the positional and the variadic argument loop: one class of arguments is not checked")
 			continue
 		}
-		ps, vs := loopSignature(info, pos), loopSignature(info, vari)
+		ps, vs := loopSignatureCtx(c, info, pos), loopSignatureCtx(c, info, vari)
 		for f := range ps.flags {
 			union["positional"][f] = true
 		}
